@@ -48,7 +48,8 @@ def strategy_(draw, tier):
         spec['ticks'] = draw(st.integers(1, 3))
         return spec
     spec = draw(struct.histories(viewers=True, residents=draw(st.booleans()),
-                                 anchor_ok=True))
+                                 anchor_ok=True, none_ok=True,
+                                 replace_ok=True))
     spec['kind'] = 'struct'
     return spec
 
